@@ -80,6 +80,8 @@ func runC13(p *Prog, r *Report) {
 	c13PluginIdentityUntouched(p, r, "D9-identity")
 	r.Rule("D10-parent-origin", "pom.xml writer: a parent's requirements are filed under the path of the parent file that was opened")
 	c13ParentOrigin(p, r, "D10-parent-origin")
+	r.Rule("D11-writer-terminates", "pom.xml writer: the descent into profiles and plugins is one level deep")
+	recursionOneLevel(p, r, "D11-writer-terminates", "guidedremediation/internal/manifest/maven", "writeProject", 3, "the text handed to the nested call starts with the same <profile>/<plugin> element, so it re-enters itself with the same arguments until the stack overflows (a profile without <id>, which the POM schema allows, is enough) — a fatal error no caller can recover from")
 }
 
 // isConstStringTableElem: v loads an element of a package-level array or slice of strings that is
